@@ -672,9 +672,12 @@ func (r *Relayer) finishRelayItem(items *relayItems, id uint32) {
 	}
 	if item.isOriginator {
 		item.call.End()
-		if item.mutatedChecksum != nil {
-			item.mutatedChecksum.Release()
-		}
+		// item.mutatedChecksum is deliberately not returned to the checksum pool: this
+		// runs on the reader of the destination connection, while the reader of the
+		// origin connection may still be feeding that checksum (fragmentingSend, or
+		// updateMutatedCallReqContinueChecksum for a frame that looked the item up
+		// before it was deleted). A pooled object handed to another message in that
+		// window would share its running checksum. The garbage collector reclaims it.
 	}
 	r.decrementPending()
 }
